@@ -34,7 +34,7 @@ res, cross = {}, {}
 path = "/tmp/mut4/results.txt"
 if os.path.exists(path):
     for l in open(path):
-        m = re.match(r"(C\d\d) (\d) check=(C\d\d) rc=(\d+) violations=(\d+) time=(\d+)s :: ?(.*)", l.strip())
+        m = re.match(r"R4-(C\d\d)-(\d) check=(C\d\d) tier=\w+ rc=(\d+) violations=(\d+) time=(\d+)s :: ?(.*)", l.strip())
         if m:
             key = f"{m.group(1)}-{m.group(2)}"
             d = {"check": m.group(3), "tier": "quick", "exit": int(m.group(4)), "violation_lines": int(m.group(5)), "wall_s_incl_build": int(m.group(6)), "first_detail": m.group(7)[:300]}
@@ -42,7 +42,7 @@ if os.path.exists(path):
                 res[key] = d          # the latest run of the own check wins
             else:
                 cross.setdefault(key, {})[m.group(3)] = d
-notes = json.load(open("/verif/scripts/r4_notes.json")) if os.path.exists("/verif/scripts/r3_notes.json") else {}
+notes = json.load(open("/verif/scripts/r4_notes.json")) if os.path.exists("/verif/scripts/r4_notes.json") else {}
 for key, (what, needs) in sorted(DESC4.items()):
     pid, n = key.split("-")
     src = f"/tmp/seed4/{pid}/out"
